@@ -128,6 +128,10 @@ class DatabaseService(Service, discriminator="database-service"):
         if not self._can_perform_action():
             return False
 
+        if self.backup_server_ip is None:
+            self.sys_log.warning(f"{self.name}: Unable to restore database backup as no backup server is configured.")
+            return False
+
         software_manager: SoftwareManager = self.software_manager
         ftp_client_service: FTPClient = software_manager.software.get("ftp-client")
 
